@@ -26,6 +26,8 @@ def result_lengths(v):
 
 
 def run(ctx, report):
+    from .premises import accessor_entries, stateless_premise
+    stateless_premise(ctx, report, 'R06-P1-stateless', ['national'], extra=None, stop=(), outside=("schwifty.iban", "schwifty.bic"))
     prog = ctx.program
     facts = ctx.facts
     reg = ctx.registry
